@@ -30,6 +30,19 @@ CHECKS = {
         note='Trusted: TLC, alpha/gamma, the real parser for the structured C09 programs (their lowering is C01\'s '
              'subject). Programs using functions without a functional model are judged by the family laws only.',
         ref='DESIGN.md 5 C09'),
+    'C03': dict(
+        technique='TLA+ definitional evaluator (BareCore.Eval/BinOp/UnOp) + TLC exhaustive operator-matrix and effect-order '
+                  'model checking (MC_Expr) + TLC trace validation of real evaluate_expression / execute_script runs '
+                  '(Trace_Core) + alias law (Trace_Alias)',
+        text='MC_Expr checks closure, sign-test and null-for-unsupported-type laws on the full operator x representative^2 '
+             'matrix and the left-to-right / at-most-once / laziness laws on all depth-2 trees with numbered probe leaves. '
+             'The same matrix and trees, plus random depth-6 trees over operands of all nine types with probes, are '
+             'evaluated by the real code in expression and statement mode; every recorded run (probe order and values, '
+             'result) must be a behaviour of the specification. Each of the 46 expression built-ins is compared with the '
+             'library function the documented table names.',
+        note='Numeric accuracy of / % ** outside the exact dyadic domain is not judged (type-level wildcard); % with a '
+             'negative operand and division by zero are allowed sets (DESIGN Appendix A5).',
+        ref='DESIGN.md 5 C03'),
 }
 
 NOT_YET = 'check not built yet in this round (work in progress; see DESIGN.md section 9 build order)'
